@@ -533,3 +533,118 @@ Theorem C18_new_address_reload_fault_refuted :
   fst (tip (process_or_keep p0 true (own_of m') [g0; blk1] (init_state 0) blk1)) = 1.
 Proof. vm_compute. repeat split; reflexivity. Qed.
 Print Assumptions C18_new_address_reload_fault_refuted.
+
+(* ==================================================================================================
+   The reload that repairs a failed NewAddress can fail PARTIALLY (Ledger/FaultReload.v, proofs in
+   Ledger/FaultReloadProofs.v).  keystore.loadAddrManager drops the error of fetchChildNum: a keystore
+   (re)loaded while exactly that read fails — in the repair of a failed NewAddress, in ImportWallet /
+   ImportWalletWithMnemonic, at start-up — is a good keystore whose in-memory mirror of the next child
+   number says 0 while the store keeps the true number.  [run from_store evs s]: the events [evs]
+   (NewAddress calls, each without fault or failing at any call of its transaction with the reload
+   ending completely [LoadOk], with the child-number read lost [LoadPartial] or not at all [LoadFails];
+   loads of the keystore outside a NewAddress) on the keystore state [s] (stored child number, rows,
+   the in-memory table entry with its mirror); the result: the final state and the addresses handed
+   out.  [from_store = true] is the code as it is (nextAddresses reads the child number from the store
+   inside the transaction), [false] the variant that takes it from the mirror.  [mem_undo = false] is the
+   code as it is (a failed NewAddress reloads the keystore from the store), [true] the proposed repair
+   fix-c18f (the addresses are taken out of the in-memory table again; no reload, nothing that can fail). *)
+Require MW.Ledger.FaultReload MW.Ledger.FaultReloadProofs.
+
+(* M1 (generalises T4) no skipped or duplicated address index, the code as it is: for EVERY sequence of
+   events — any faults, any outcomes of the reloads including partial ones and lost keystores, any
+   loads in between — the addresses handed out are children n, n+1, n+2, ... in order (n = the stored
+   child number before), and the stored child number has advanced by exactly their number *)
+Theorem C18_address_indices_partial_reload : forall derive mem_undo evs s,
+  let '(s', outs) := FaultReload.run derive true mem_undo evs s in
+  outs = map derive (seq (FaultReload.s_next s) (length outs)) /\
+  FaultReload.s_next s' = (FaultReload.s_next s + length outs)%nat.
+Proof. exact FaultReloadProofs.run_indices. Qed.
+Print Assumptions C18_address_indices_partial_reload.
+
+(*    ... their number is the number of calls not struck by a fault, as long as no reload loses the
+      keystore altogether (what happens then: R2 above) *)
+Theorem C18_address_count_partial_reload : forall derive evs s,
+  FaultReload.s_cache s <> None -> FaultReload.no_load_fails evs ->
+  length (snd (FaultReload.run derive true false evs s)) = FaultReload.clean_calls evs /\
+  FaultReload.s_cache (fst (FaultReload.run derive true false evs s)) <> None.
+Proof. exact FaultReloadProofs.run_count. Qed.
+Print Assumptions C18_address_count_partial_reload.
+
+(*    ... and the store's rows stay exactly the children 0 .. n-1, each with its own address *)
+Theorem C18_address_rows_partial_reload : forall derive mem_undo evs s,
+  FaultReload.rows_ok derive s -> FaultReload.rows_ok derive (fst (FaultReload.run derive true mem_undo evs s)).
+Proof. exact FaultReloadProofs.run_rows_ok. Qed.
+Print Assumptions C18_address_rows_partial_reload.
+
+(* M2 a stale mirror is never observable in the code as it is: two states that differ in the mirror only
+   hand out the same addresses under the same events and end in the same store *)
+Theorem C18_stale_mirror_unobservable : forall derive mem_undo evs s1 s2,
+  FaultReload.same_but_mirror s1 s2 ->
+  snd (FaultReload.run derive true mem_undo evs s1) = snd (FaultReload.run derive true mem_undo evs s2) /\
+  FaultReload.same_but_mirror (fst (FaultReload.run derive true mem_undo evs s1)) (fst (FaultReload.run derive true mem_undo evs s2)).
+Proof. exact FaultReloadProofs.run_mirror_blind. Qed.
+Print Assumptions C18_stale_mirror_unobservable.
+
+(* M3 the finer model refines T4's: with reloads that end in any way that keeps the keystore, the addresses
+   handed out are those of Fault.attempts *)
+Theorem C18_partial_reload_refines_attempts : forall (derive : N -> nat -> N) repaired fs ls k w s,
+  Forall (fun l => l <> FaultReload.LoadFails) ls -> FaultReload.s_cache s <> None ->
+  FaultReload.s_next s = next_index (k_store k) w ->
+  snd (FaultReload.run (derive w) true false (FaultReloadProofs.events_of fs ls) s) = snd (attempts derive repaired fs k w).
+Proof. exact FaultReloadProofs.run_refines_attempts. Qed.
+Print Assumptions C18_partial_reload_refines_attempts.
+
+(* M4 the variant that takes the index from the mirror (every site of it looks right: the mirror is loaded
+   with the keystore, refreshed inside the transaction, and the keystore is reloaded after every failure)
+   re-issues addresses.  (a) two addresses issued, the third call fails and the repairing reload loses the
+   child-number read, then storage works: the next two calls hand out children 0 and 1 again and the
+   store says 2 after four addresses (the code as it is: children 2 and 3, store 4).  (b) a keystore with
+   three addresses is loaded while that read fails (the import reports success): the next call hands out
+   child 0 and sets the stored number back to 1 (the code as it is: child 3, store 4) *)
+Theorem C18_new_address_mirror_refuted :
+  (FaultReload.no_load_fails FaultReloadProofs.evs_a /\ FaultReload.rows_ok FaultReloadProofs.derive0 FaultReloadProofs.fresh /\
+   FaultReload.run FaultReloadProofs.derive0 false false FaultReloadProofs.evs_a FaultReloadProofs.fresh =
+     ({| FaultReload.s_next := 2; FaultReload.s_rows := [(1%nat, 101%N); (0%nat, 100%N)];
+         FaultReload.s_cache := Some {| FaultReload.c_addrs := [101; 100; 101; 100]%N; FaultReload.c_mirror := 2 |} |},
+      [100; 101; 100; 101]%N) /\
+   snd (FaultReload.run FaultReloadProofs.derive0 true false FaultReloadProofs.evs_a FaultReloadProofs.fresh) = [100; 101; 102; 103]%N /\
+   FaultReload.s_next (fst (FaultReload.run FaultReloadProofs.derive0 true false FaultReloadProofs.evs_a FaultReloadProofs.fresh)) = 4%nat) /\
+  (FaultReload.no_load_fails FaultReloadProofs.evs_b /\ FaultReload.rows_ok FaultReloadProofs.derive0 FaultReloadProofs.three /\
+   snd (FaultReload.run FaultReloadProofs.derive0 false false FaultReloadProofs.evs_b FaultReloadProofs.three) = [100]%N /\
+   FaultReload.s_next (fst (FaultReload.run FaultReloadProofs.derive0 false false FaultReloadProofs.evs_b FaultReloadProofs.three)) = 1%nat /\
+   snd (FaultReload.run FaultReloadProofs.derive0 true false FaultReloadProofs.evs_b FaultReloadProofs.three) = [103]%N /\
+   FaultReload.s_next (fst (FaultReload.run FaultReloadProofs.derive0 true false FaultReloadProofs.evs_b FaultReloadProofs.three)) = 4%nat).
+Proof. exact FaultReloadProofs.new_address_mirror_refuted. Qed.
+Print Assumptions C18_new_address_mirror_refuted.
+
+(* M5 where the reload fails altogether (the code as it is; = R2 above in this model): one address issued,
+   the second call fails and its reload fails too (BeginReadTx: dropped silently; another read: the process
+   exits at the FATAL log): the keystore is out of the table and the third call fails although storage
+   works.  With the in-memory repair it succeeds, and in general no fault of a NewAddress can lose the
+   keystore: every call not struck by a fault hands out an address *)
+Theorem C18_new_address_lost_keystore_refuted :
+  FaultReload.run FaultReloadProofs.derive0 true false FaultReloadProofs.evs_c FaultReloadProofs.fresh =
+    ({| FaultReload.s_next := 1; FaultReload.s_rows := [(0%nat, 100%N)]; FaultReload.s_cache := None |}, [100%N]) /\
+  snd (FaultReload.run FaultReloadProofs.derive0 true true FaultReloadProofs.evs_c FaultReloadProofs.fresh) = [100; 101]%N.
+Proof. exact FaultReloadProofs.new_address_lost_keystore_refuted. Qed.
+Print Assumptions C18_new_address_lost_keystore_refuted.
+
+Theorem C18_address_count_mem_undo : forall derive evs s,
+  FaultReload.s_cache s <> None -> FaultReload.no_lost_load evs ->
+  length (snd (FaultReload.run derive true true evs s)) = FaultReload.clean_calls evs /\
+  FaultReload.s_cache (fst (FaultReload.run derive true true evs s)) <> None.
+Proof. exact FaultReloadProofs.run_count_mem_undo. Qed.
+Print Assumptions C18_address_count_mem_undo.
+
+(* non-vacuity of M1: faults of every kind, a lost keystore and a restart in between; five calls succeed *)
+Example C18_partial_reload_example :
+  FaultReload.run FaultReloadProofs.derive0 true false
+    [FaultReload.ENew FaultReload.NNone; FaultReload.ENew (FaultReload.NFail FaultReload.LoadPartial); FaultReload.ENew FaultReload.NNone;
+     FaultReload.ENew (FaultReload.NFail FaultReload.LoadFails); FaultReload.ENew FaultReload.NNone; FaultReload.ELoad FaultReload.LoadPartial;
+     FaultReload.ENew FaultReload.NNone; FaultReload.ENew (FaultReload.NFail FaultReload.LoadOk); FaultReload.ENew FaultReload.NNone;
+     FaultReload.ENew FaultReload.NNone] FaultReloadProofs.fresh
+  = ({| FaultReload.s_next := 5;
+        FaultReload.s_rows := [(4%nat, 104%N); (3%nat, 103%N); (2%nat, 102%N); (1%nat, 101%N); (0%nat, 100%N)];
+        FaultReload.s_cache := Some {| FaultReload.c_addrs := [104; 103; 102; 101; 100]%N; FaultReload.c_mirror := 5 |} |},
+     [100; 101; 102; 103; 104]%N).
+Proof. vm_compute. reflexivity. Qed.
